@@ -615,6 +615,12 @@ fn extend(ctx: &Ctx, case: &Case, t: &mut Tally, rng: &mut Rng, parsed: &Encodin
                 t.o("encoding.empty_table_rejected_by_parser", 1);
                 return;
             }
+            if model.e.is_empty() {
+                // same class: edits on an initially empty table added content keys only, the EKey page table has zero
+                // pages, and the parser (like Agent.exe) refuses a page table with zero pages (seen at 2 of 25 seeds)
+                t.o("encoding.table_without_ekey_pages_rejected_by_parser", 1);
+                return;
+            }
             viol(ctx, case, &format!("C03|encoding|{ph}built-output-misparsed|parse-error"), "the parser rejects the serialised output of an edited EncodingBuilder", json!({"error_class": cls, "sizes": size_info}));
             return;
         }
